@@ -946,10 +946,12 @@ func (r *Run) oracleC01(op *OpDesc, c *Call, pre, post *Snap) *Violation {
 			st.Inc("probe/C01/n>=3")
 		}
 	}
-	for _, a := range ps {
-		if !ref.ScalarMul(alpha.L, a).Equal(ref.Identity()) {
-			st.Inc("probe/C01/input_with_torsion")
-			break
+	if r.StepNo%8 == 0 { // the probe costs a reference scalar multiplication: sampled
+		for _, a := range ps {
+			if !ref.ScalarMul(alpha.L, a).Equal(ref.Identity()) {
+				st.Inc("probe/C01/input_with_torsion")
+				break
+			}
 		}
 	}
 	for _, i := range c.P {
